@@ -935,6 +935,16 @@ class CodeGenerator:
 
         int_ir_type = self.get_ir_type("integer")
 
+        # The first element has the lower bound of the index type as index:
+        dimensions = base_typ.dimensions
+        if isinstance(dimensions, (list, tuple)) and isinstance(
+            dimensions[0], types.SubRange
+        ):
+            lower = self.context.eval_const_expr(dimensions[0].lower)
+            if lower:
+                lower = self.emit(ir.Const(lower, "lower_bound", int_ir_type))
+                idx = self.emit(ir.sub(idx, lower, "index", int_ir_type))
+
         # Generate constant:
         e_size = self.emit(ir.Const(element_size, "element_size", int_ir_type))
 
